@@ -76,6 +76,7 @@ def make_ctx(fa):
     c["dec3"] = fa.parse_schema(copy.deepcopy(DEC3))
     c["dec12"] = fa.parse_schema(copy.deepcopy(DEC12))
     c["fixdec"] = fa.parse_schema(copy.deepcopy(FIXDEC))
+    c["bdec"] = fa.parse_schema({"type": "bytes", "logicalType": "decimal", "precision": 12, "scale": 4})
     return c
 
 
@@ -97,6 +98,10 @@ def const(fa):
         fo = io.BytesIO()
         fa.writer(fo, SMALL, [SDATUM], sync_marker=b"S" * 16)
         _CONST["file"] = fo.getvalue()
+        deep = None
+        for i in range(40):
+            deep = {"value": i, "next": deep}
+        _CONST["deep"] = _sl_bytes(fa, NODE, deep)
         _CONST["few"] = _sl_bytes(fa, {"type": "array", "items": "string"}, ["alpha", "beta", "alpha"])
         _CONST["many"] = _sl_bytes(fa, {"type": "array", "items": "string"}, ["s%03d" % i for i in range(262)])
         for nm, sch in (("twin_a", TWIN_A), ("twin_b", TWIN_B)):
@@ -240,6 +245,20 @@ def op_sl_read(fa, c, k):
     return fa.schemaless_reader(io.BytesIO(k["rec2"]), c["rec"])
 
 
+def op_sl_read_deep(fa, c, k):
+    # a 40-node linked list: about 120 nested read calls, far below any sensible nesting limit of one read
+    return fa.schemaless_reader(io.BytesIO(k["deep"]), c["node"])
+
+
+def op_bytesdec_write(fa, c, k):
+    out = []
+    for v in ("5", "7E+2", "0.1", "123"):  # values that must be scaled up by different powers of ten
+        fo = io.BytesIO()
+        fa.schemaless_writer(fo, c["bdec"], decimal.Decimal(v))
+        out.append(fo.getvalue())
+    return out
+
+
 OPS = [
     ("dec3_read", op_dec3_read), ("dec12_read", op_dec12_read), ("fixdec_write", op_fixdec_write),
     ("json_read_defaults", op_json_read_defaults), ("json_write", op_json_write), ("parse_raw", op_parse_raw),
@@ -249,6 +268,7 @@ OPS = [
     ("json_write_node", op_json_write_node), ("json_read_node", op_json_read_node), ("few_strings", op_few_strings), ("many_strings", op_many_strings),
     ("fingerprint", op_fingerprint),
     ("cont_write_null", op_cont_write_null), ("cont_write_bz", op_cont_write_bz), ("legacy_write", op_legacy_write), ("legacy_validate", op_legacy_validate),
+    ("sl_read_deep", op_sl_read_deep), ("bytesdec_write", op_bytesdec_write),
 ]
 CHUNKS = 16
 OPCODE_FILES = ("_logical_readers_py.py", "_logical_writers_py.py", "json_decoder.py", "parser.py", "binary_encoder.py")
@@ -256,15 +276,15 @@ OPCODE_FILES = ("_logical_readers_py.py", "_logical_writers_py.py", "json_decode
 
 def units(tier):
     idx = range(len(OPS))
-    special = set(range(14, 27))
+    special = set(range(14, 29))
     us = [("pair", a, b) for a, b in itertools.combinations_with_replacement(idx, 2)
           if (tier == "thorough" and not ({a, b} & {21, 22})) or not ({a, b} & special)
           or (a, b) in ((14, 15), (16, 17), (14, 17), (18, 18), (18, 19), (19, 19), (20, 21), (20, 20), (22, 22), (5, 22),
-                        (10, 23), (23, 24), (10, 24), (25, 25), (25, 26), (26, 26), (8, 25))]
+                        (10, 23), (23, 24), (10, 24), (25, 25), (25, 26), (26, 26), (8, 25), (27, 27), (13, 27), (28, 28), (2, 28))]
     us = [(u, c) for u in us for c in range(CHUNKS)]
     # cold start: every execution begins with a freshly imported library (first-call initialisation races);
     # deviations at the 1st, 2nd and last visit of every source line of the default execution
-    cold = [(22, 22), (8, 8)] if tier == "quick" else [(22, 22), (5, 5), (8, 8), (4, 4), (3, 3), (0, 1), (18, 18), (10, 11), (12, 12), (7, 7), (2, 2)]
+    cold = [(22, 22), (8, 8), (28, 28)] if tier == "quick" else [(22, 22), (5, 5), (8, 8), (4, 4), (3, 3), (0, 1), (18, 18), (10, 11), (12, 12), (7, 7), (2, 2), (28, 28), (2, 28), (27, 27)]
     us += [(("cold", a, b), 0) for a, b in cold]
     if tier == "thorough":
         us += [(u, 0) for u in [("triple", 0, 1, 2), ("triple", 0, 1, 1), ("triple", 8, 9, 10), ("triple", 3, 3, 4), ("triple", 5, 6, 7), ("triple", 12, 12, 13)]]
@@ -278,7 +298,7 @@ def priority(unit_chunk):
         return 3
     if unit[0] in ("triple", "opcode"):
         return 2
-    big = {3, 4, 10, 11, 14, 15, 18, 19, 20, 21, 22, 23, 24}
+    big = {3, 4, 10, 11, 14, 15, 18, 19, 20, 21, 22, 23, 24, 27}
     return 1 if (set(unit[1:]) & big) else 0
 
 
